@@ -696,6 +696,18 @@ example : Admissible {} [.findByGType "GObject".toList, .load exLazy true 0, .fi
   cases h
   exact ⟨trivial, fun _ _ _ => trivial⟩
 
+-- names find their own entries in the example typelib (hypothesis of C14_gtype_name_agree)
+example : NameComplete exLazy := by
+  intro i e h
+  rcases i with _ | _ | _ | _ | i
+  all_goals simp [exLazy, exLazyDir, Dir.locals] at h
+  all_goals subst h
+  all_goals decide
+
+example : (findByGTypeOp {lazy := [exLazy]} "GObject".toList).2 = .info exThing
+    ∧ findByNameOp (findByGTypeOp {lazy := [exLazy]} "GObject".toList).1 exThing.ns exThing.entry.name = .info exThing := by
+  decide
+
 end Examples
 
 end GIVerif.Lookup
